@@ -425,57 +425,6 @@ Proof.
   - unfold box_faces. repeat constructor; cbn; lia.
   - split; intros p Hp; discriminate.
 Qed.
-(* ================================================================ exit points: cylinder (side wall) *)
-(* generic branch d_x <> 0 with a real intersection: both side-wall points lie on the circle of
-   radius dr and on the line of flight (y - v_y = (d_y/d_x)(x - v_x), z - v_z = (x - v_x) d_z/d_x),
-   the first one at the smaller x *)
-Lemma vx_mk (x y z : R) : vx (x, y, z) = x. Proof. reflexivity. Qed.
-Lemma vy_mk (x y z : R) : vy (x, y, z) = y. Proof. reflexivity. Qed.
-Lemma vz_mk (x y z : R) : vz (x, y, z) = z. Proof. reflexivity. Qed.
-
-Definition on_flight_line (v d p : vec3) : Prop :=
-  vy p - vy v = vy d / vx d * (vx p - vx v) /\ vz p = vz v + (vx p - vx v) * vz d / vx d.
-
-Lemma cyl_side_generic_lemma dr v d :
-  vx d <> 0 ->
-  0 <= - ((vy v - vy d / vx d * vx v) ^ 2) + (1 + (vy d / vx d) ^ 2) * dr ^ 2 ->
-  let p0 := fst (cyl_side_points dr v d) in let p1 := snd (cyl_side_points dr v d) in
-  vx p0 ^ 2 + vy p0 ^ 2 = dr ^ 2 /\ vx p1 ^ 2 + vy p1 ^ 2 = dr ^ 2 /\
-  on_flight_line v d p0 /\ on_flight_line v d p1 /\ vx p0 <= vx p1.
-Proof.
-  intros Hd HD. unfold cyl_side_points.
-  destruct (Reqb (vx d) 0) eqn:E; [apply Reqb_true in E; contradiction|].
-  set (slope := vy d / vx d) in *. set (a := 1 + slope ^ 2) in *. set (b := vy v - slope * vx v) in *.
-  cbv zeta.
-  set (q := sqrt (- b ^ 2 + a * dr ^ 2)).
-  assert (Hq : q * q = - b ^ 2 + a * dr ^ 2) by (apply sqrt_sqrt; assumption).
-  assert (Hq0 : 0 <= q) by apply sqrt_pos.
-  assert (Ha : 0 < a) by (unfold a; nra).
-  assert (Ha' : a = 1 + slope * slope) by (unfold a; ring).
-  unfold on_flight_line. cbn [fst snd].
-  rewrite !vx_mk, !vy_mk, ?vz_mk. fold slope.
-  repeat split.
-  - replace ((- (slope * b + q) / a) ^ 2 + ((vy v - slope * (vx v + q)) / a) ^ 2)
-      with (((slope * b + q) ^ 2 + (b - slope * q) ^ 2) / (a * a)) by (unfold b; field; lra).
-    replace ((slope * b + q) ^ 2 + (b - slope * q) ^ 2) with ((1 + slope * slope) * (b * b + q * q)) by ring.
-    rewrite Hq, <- Ha'. field. lra.
-  - replace (((- slope * b + q) / a) ^ 2 + ((vy v + slope * (- vx v + q)) / a) ^ 2)
-      with (((- slope * b + q) ^ 2 + (b + slope * q) ^ 2) / (a * a)) by (unfold b; field; lra).
-    replace ((- slope * b + q) ^ 2 + (b + slope * q) ^ 2) with ((1 + slope * slope) * (b * b + q * q)) by ring.
-    rewrite Hq, <- Ha'. field. lra.
-  - assert (H : (vy v - slope * (vx v + q)) - a * vy v = slope * (- (slope * b + q) - a * vx v))
-      by (rewrite Ha'; unfold b; ring).
-    replace ((vy v - slope * (vx v + q)) / a - vy v) with (((vy v - slope * (vx v + q)) - a * vy v) / a) by (field; lra).
-    rewrite H. field. lra.
-  - assert (H : (vy v + slope * (- vx v + q)) - a * vy v = slope * ((- slope * b + q) - a * vx v))
-      by (rewrite Ha'; unfold b; ring).
-    replace ((vy v + slope * (- vx v + q)) / a - vy v) with (((vy v + slope * (- vx v + q)) - a * vy v) / a) by (field; lra).
-    rewrite H. field. lra.
-  - apply (Rmult_le_reg_r a); [assumption|].
-    replace (- (slope * b + q) / a * a) with (- (slope * b + q)) by (field; lra).
-    replace ((- slope * b + q) / a * a) with (- slope * b + q) by (field; lra). lra.
-Qed.
-
 (* ================================================================ non-vacuity *)
 Example ratio_example : ratio_ok (mkGen (1 / 3, 1 / 3, 1 / 3)).
 Proof. unfold ratio_ok, vx, vy, vz; simpl. lra. Qed.
